@@ -54,6 +54,28 @@ def spec32 (p : Parts) : Option UInt32 :=
   | .huge => none
   | .rat n d => Spec.Ieee32.roundNE32 p.neg n d
 
+def natOfHex (s : String) : Option Nat :=
+  s.toList.foldlM (fun acc c =>
+    if '0' ≤ c ∧ c ≤ '9' then some (acc * 16 + (c.toNat - 48))
+    else if 'a' ≤ c ∧ c ≤ 'f' then some (acc * 16 + (c.toNat - 87)) else none) 0
+
+/-- shape of known finding F-C07-zero-tail: the integer part is longer than `MAX_DIGITS - 1` digits, every digit
+    after that is `0` and so is the whole fraction — `bhcomp::parse_mantissa` then appends a sticky `1` although
+    nothing non-zero was dropped (only the fraction has its trailing zeros trimmed) -/
+def zeroTail (single : Bool) (p : Parts) : Bool :=
+  let k := (fc single).maxDigits - 1
+  p.int.length > k && (p.int.drop k).all (· == 0x30) && (p.frac.getD []).all (· == 0x30)
+
+/-- shape of known finding F-C07-f32-negint: `-n` with `2^63 < n < 2^64` and neither fraction nor exponent reaches
+    the f32 visitor as `-(n as f64)` and is rounded a second time -/
+def negIntF32 (p : Parts) : Bool :=
+  p.neg && p.frac.isNone && p.exp.isNone && p.int.length ≤ 20 && natOfDigits p.int > 2 ^ 63 && natOfDigits p.int < 2 ^ 64
+
+def nextBits (s : String) : String :=
+  match natOfHex (s.drop 1).toString with
+  | some n => "B" ++ hexN (s.length - 1) (n + 1)
+  | none => s
+
 /-- `f64rt <hex literal> => B<16 hex bits> | E` (str, slice, reader and `Value::as_f64` merged; `X…` if they differ) -/
 def f64rt : Handler := fun args impl =>
   match args with
@@ -63,9 +85,10 @@ def f64rt : Handler := fun args impl =>
       match toF64 (deFloatRoundtrip false p) with
       | some m =>
         let want := show64 (spec64 p)
+        let tag := if zeroTail false p && impl == nextBits want then " [zero-tail]" else ""
         { model := show64 m,
           specs := if impl == want then [] else
-            [s!"C07 f64: got {impl}, the correctly rounded value of the literal is {want}"] }
+            [s!"C07 f64{tag}: got {impl}, the correctly rounded value of the literal is {want}"] }
       | none => bad "fuel"
     | none => bad "not a number literal"
   | _ => bad "arity"
@@ -79,17 +102,14 @@ def f32rt : Handler := fun args impl =>
       match toF32 (deFloatRoundtrip true p) with
       | some m =>
         let want := show32 (spec32 p)
+        let tag := if zeroTail true p && impl == nextBits want then " [zero-tail]"
+                   else if negIntF32 p && impl == show32 (toF32 (deFloatRoundtrip false p)).join then " [negint-double-rounding]" else ""
         { model := show32 m,
           specs := if impl == want then [] else
-            [s!"C07 f32: got {impl}, the correctly rounded value of the literal is {want}"] }
+            [s!"C07 f32{tag}: got {impl}, the correctly rounded value of the literal is {want}"] }
       | none => bad "fuel"
     | none => bad "not a number literal"
   | _ => bad "arity"
-
-def natOfHex (s : String) : Option Nat :=
-  s.toList.foldlM (fun acc c =>
-    if '0' ≤ c ∧ c ≤ '9' then some (acc * 16 + (c.toNat - 48))
-    else if 'a' ≤ c ∧ c ≤ 'f' then some (acc * 16 + (c.toNat - 87)) else none) 0
 
 /-- `f64pr <16 hex bits> => <hex of to_string(f)>|<parse of that text>`: the printed text must be a JSON number
     whose nearest double is the input (`RyuShortest`), and parsing it must give the input back -/
